@@ -31,8 +31,15 @@ Control flow: `if` -> ite, `for`/`while` -> loop (trip count abstracted),
 statement of the body may be the last one executed, then the handlers are
 optional; `raise` -> `ret 0`.
 
-Exemptions (each validated by the dynamic monitor of tools/props/C02.py) are
-collected in PUB_EXEMPT / CPUB_EXEMPT / NONSTRICT / CALLBACK_SITES below.
+Outputs: Gen/AliasIR.lean (the program), Gen/AliasSumm.lean (summary table
+computed by Driver/C02.lean = certificate), Gen/AliasChk<k>.lean (kernel
+decides `checkFn` for a range of functions), Gen/AliasCheck.lean (the chunks
+together are `checkWith program summaries`).
+
+Exemptions and assumptions (each validated by the dynamic monitor of
+tools/props/C02.py) are collected in CPUB_EXEMPT / NONSTRICT / EXPR_KINDS /
+PARAM_KINDS / CALLBACK_PARAMS / SKIP_FUNCS below; A1 = documented parameter
+types, A2 = rel.data entries have the type their key's method returns.
 """
 import ast
 import os
@@ -46,8 +53,6 @@ class TranslationError(Exception):
 
 MODULES = [("maths", "maths.py"), ("numerical", "numerical.py"), ("fd", "finitedifference.py"),
            ("core", "core.py"), ("time", "time.py"), ("reading", "reading.py")]
-# how a module refers to the others
-MODULE_ALIASES = {"maths": "maths", "numerical": "numerical", "core": "core"}
 CLASS_OF_ATTR = {("core.AurelCore", "fd"): "fd.FiniteDifference"}
 SKIP_FUNCS = {"core.AurelCore.__getitem__":
               "the dispatcher itself: its semantics (return the cache entry, else call the key's method and store "
